@@ -311,7 +311,7 @@ def run_solvers(res, spec):
 
     ref = Ref(spec)
     inst = impl.mk_instance(spec)
-    old = signal.signal(signal.SIGALRM, _alarm)
+    old = signal.signal(signal.SIGVTALRM, _alarm)
     try:
         for rule in RULES:
             for chooser in ("first", "random"):
@@ -326,7 +326,7 @@ def run_solvers(res, spec):
                         ho = HistoryObserver(d)
                         steps = []
                         with owned_random(ch):
-                            signal.setitimer(signal.ITIMER_REAL, 5.0)
+                            signal.setitimer(signal.ITIMER_VIRTUAL, 20.0)
                             try:
                                 # step by step so that the pre-state is known
                                 for _ in range(ref.N + 1):
@@ -342,7 +342,7 @@ def run_solvers(res, spec):
                             except Exception as exc:  # noqa: BLE001
                                 return ("raised", type(exc).__name__, repr(exc)[:200], steps)
                             finally:
-                                signal.setitimer(signal.ITIMER_REAL, 0)
+                                signal.setitimer(signal.ITIMER_VIRTUAL, 0)
                         return ("ok", complete, impl.snap_schedule(d.schedule), steps)
 
                     leaves = 0
@@ -384,10 +384,10 @@ def run_solvers(res, spec):
                             hist = hist + ((ref.ops[oid][0], m),)
                     # the solver's own loop (solve) must agree for deterministic configurations
                     if rule != "random" and chooser == "first":
-                        signal.setitimer(signal.ITIMER_REAL, 5.0)
+                        signal.setitimer(signal.ITIMER_VIRTUAL, 20.0)
                         try:
                             S = DispatchingRuleSolver(rule, chooser, flt).solve(inst)
-                            signal.setitimer(signal.ITIMER_REAL, 0)
+                            signal.setitimer(signal.ITIMER_VIRTUAL, 0)
                             if not S.is_complete() or feasibility_errors(ref, impl.snap_schedule(S)):
                                 res.violation(check, "solve-result-incomplete-or-infeasible", sig=sig, **common)
                             elif impl.snap_schedule(S) != snap:
@@ -395,12 +395,12 @@ def run_solvers(res, spec):
                         except _Hang:
                             res.violation(check, "solver-does-not-terminate", sig=sig, via="solve", **common)
                         except Exception as exc:  # noqa: BLE001
-                            signal.setitimer(signal.ITIMER_REAL, 0)
+                            signal.setitimer(signal.ITIMER_VIRTUAL, 0)
                             res.violation(check, f"solver-raised:{type(exc).__name__}", sig=sig, via="solve", error=repr(exc)[:200], **common)
         res.add("states")
     finally:
-        signal.setitimer(signal.ITIMER_REAL, 0)
-        signal.signal(signal.SIGALRM, old)
+        signal.setitimer(signal.ITIMER_VIRTUAL, 0)
+        signal.signal(signal.SIGVTALRM, old)
 
 
 # ---------------------------------------------------------------------------
